@@ -34,7 +34,11 @@ def check(prog, run):
             t = gcn.text(test)      # canonical: locals such as `fields` are replaced by what they were assigned
             for name, needle in guards.items():
                 if needle(t):
-                    return ("refuse:" if truth else "pass:") + name
+                    refuse = truth
+                    # `len(fields) == 1` is the accepting spelling of the same test (`!= 1` refuses when true)
+                    if isinstance(test, ast.Compare) and len(test.ops) == 1 and isinstance(test.ops[0], ast.Eq) and "len(" in t:
+                        refuse = not truth
+                    return ("refuse:" if refuse else "pass:") + name
             return None
 
         def ev(n):
@@ -103,7 +107,7 @@ def check(prog, run):
         if isinstance(n, ast.If) and g_c["single-root-field"](ccn.text(n.test)):
             t = ccn.text(n.test)
             r.instance("single-root-field test `%s`" % t)
-            if not re.match(r"^len\(\w+\.collect_fields\(.*\)\) != 1$", t):
+            if not re.match(r"^len\(\w+\.collect_fields\(.*\)\) (!=|==) 1$", t):
                 run.report(r, "%s:create_source_event_stream:guard-shape(single-root-field)" % SUB, cses.where(n), "the refusal test is `%s`, not len(fields) != 1" % t)
         if isinstance(n, ast.If) and "subscription_resolver" in ast.unparse(n.test):
             t = ast.unparse(n.test)
